@@ -528,7 +528,9 @@ def g_constructors(ctx, rng, i):
             tr(g.Conic.from_foci, P[0], P[1], P[2])
         tr(g.Conic.from_crossratio, float(rng.integers(2, 6)) / 2, *P[:4])
         tr(_construct, ctx, g.Circle, P[0], float(rng.integers(1, 5)))
+        tr(_construct, ctx, g.Circle, P[0], float(gen.pick(rng, [0.5, 1.5, 2.25, 0.75])))  # (non-integer squares: dtype of the centre matters)
         tr(_construct, ctx, g.Ellipse, P[0], float(rng.integers(1, 5)), float(rng.integers(1, 5)))
+        tr(_construct, ctx, g.Ellipse, P[0], float(gen.pick(rng, [0.5, 1.5, 2.25])), float(gen.pick(rng, [0.75, 2.5])))
         tr(_construct, ctx, g.RegularPolygon, P[0], float(rng.integers(1, 4)), int(rng.integers(3, 7)))
         tr(g.Transformation.from_points, *[(P[k], P[(k + 2) % 6]) for k in range(4)])
         c1, c2 = tr(g.Conic.from_points, *P[:5]), tr(g.Conic.from_points, *P[1:6])
@@ -545,6 +547,7 @@ def g_constructors(ctx, rng, i):
             tr(g.Quadric.from_planes, e, f)
             tr(g.reflection, e)
         tr(_construct, ctx, g.Sphere, P[0], float(rng.integers(1, 5)))
+        tr(_construct, ctx, g.Sphere, P[0], float(gen.pick(rng, [0.5, 1.5, 2.25, 0.75])))
         tr(_construct, ctx, g.Cone, P[0], P[1], float(rng.integers(1, 4)))
         tr(_construct, ctx, g.Cylinder, P[0], P[1], float(rng.integers(1, 4)))
         tr(g.Transformation.from_points, *[(P[k], P[(k + 1) % 6]) for k in range(5)])
